@@ -140,6 +140,22 @@ def run(ctx):
             ctx.ok('R-REFSHIFT', 'shift', where, '(reference date in the model year - 1 January) / year length on %d path(s); 0 for a 1 January reference' % nshift)
         else:
             ctx.undec('R-REFSHIFT', 'shift', where, 'no non-zero shift found')
+        # ---- R-REFTIME: the time of day of the reference ('hours since 2001-01-01 12:00:00') is part of the shift
+        ctx.rule('R-REFTIME', 'getTimes, fixed-length calendars: the hour, minute and second of the reference date enter the shift on every path (also for a 1 January reference)')
+        tod = ('refdate.hour', 'refdate.minute', 'refdate.second')
+
+        def has_tod(txt):
+            return all(t in txt for t in tod) or 'refdate.replace(' in txt or 'refdate.time' in txt or re.search(r'refdate - ', txt) is not None
+        lacking = [txt for txt, sh in sorted(forms.items()) if not has_tod(txt)]
+        if not forms:
+            ctx.undec('R-REFTIME', 'shift', where, 'no shift found')
+        elif lacking:
+            zero = [t for t in lacking if t == '0']
+            ctx.violation(Finding('R-REFTIME', FILES, q, fst, 'on %d of %d paths the shift (%s) does not contain the time of day of the reference date: "hours since 2001-01-01 12:00:00" in a 365/366-day '
+                                  'calendar decodes offset 0 as 00:00 instead of 12:00%s' % (len(lacking), len(forms), lacking[0][:50], ' (a 1 January reference takes the zero shift whatever its time of day)'
+                                                                                            if zero else '')))
+        else:
+            ctx.ok('R-REFTIME', 'shift', where, 'month, day, hour, minute and second of the reference on all %d path(s)' % len(forms))
     # ---- R-CALTABLE
     cal = None
     for n in walk_expr(fn):
